@@ -631,7 +631,9 @@ def c02d(F, R):
             c1 = mentions_call(i0["cond"], "is_ureturn") and mentions_call(i0["then"], "all_writable_set")
             e1 = peel(i0.get("else") or {})
             c2 = e1.get("k") == "If" and mentions_call(e1["cond"], "is_return") and mentions_call(e1["then"], "callee_saved_set")
-            c3 = e1.get("k") == "If" and mentions_call(e1.get("else") or {}, "reads_from")
+            # the registers read: from the operand table, or enumerated per node kind (whose agreement with the table is C02.k's business)
+            c3 = e1.get("k") == "If" and (mentions_call(e1.get("else") or {}, "reads_from")
+                                          or any(m_.get("k") == "Match" and ekey(m_["scrut"]).lstrip("*&") == "self" for m_ in walk(e1.get("else") or {}, pats=False)))
             okk = c1 and c2 and c3
             detail = f"ureturn->all_writable={c1}, return->callee_saved={c2}, else reads_from={c3}"
     if okk:
